@@ -47,10 +47,13 @@ CONSTANTS NSyms,      \* number of assignable symbols (prefix of A, B, C, D)
           MaxFeat,    \* bound on (#symbols that occur) + (#guarded statements) + (1 if ODE): keeps the quick tier small
           MaxAdm,     \* enumerate admissible removal sets only when at most MaxAdm statements are candidates
           MinEmit,    \* programs shorter than this are not emitted
+          MaxRmSet,   \* remove_symbol_definitions is queried with symbol sets of at most this size
+          Thin, ThinRes, FullDepth,   \* beyond length FullDepth only the successors with Hash % Thin = ThinRes are explored
+                                      \* (Thin = 1: exhaustive; Thin > 1: a seed-chosen random subtree of longer programs)
           SampleMod, SampleRes   \* a program is emitted as a case iff Hash(prog) % SampleMod = SampleRes
 
-VARIABLES pc, prog, env, ode, dep, vals
-vars == <<pc, prog, env, ode, dep, vals>>
+VARIABLES pc, prog, env, ode, dep, vals, reads
+vars == <<pc, prog, env, ode, dep, vals, reads>>
 
 Name == <<"A", "B", "C", "D", "a1", "p1", "p2", "e1", "q1", "one", "x1", "amt">>
 NA == 10
@@ -85,12 +88,13 @@ EvalF(x, e, br) == Mk(LAMBDA b : (IF b > 5 THEN x[b] ELSE 0) + Term(x, e, 1, br,
                                  + Term(x, e, 3, br, b) + Term(x, e, 4, br, b) + Term(x, e, 5, br, b))
 
 \* ---------------------------------------------------------------- statements
-\* [k : "asg"|"ode", lhs, g : guarded, t : form, f : form]   (g = FALSE => t = f)
+\* [k : "asg"|"ode", lhs, g : guarded, t : form, f : form, ra : atoms of t and f]   (g = FALSE => t = f)
 \*   asg:  lhs = Piecewise((t, x1 > 0), (f, True))   or   lhs = t
 \*   ode:  one compartment, elimination rate t, bolus dose amt; defines the amount a1 (lhs = 5)
 IsOde(st) == st.k = "ode"
 HasOde(P) == \E i \in 1..Len(P) : IsOde(P[i])
-RhsAtoms(st) == (Supp(st.t) \cup Supp(st.f)) \ {One}
+AtomsOf(x, y) == (Supp(x) \cup Supp(y)) \ {One}
+RhsAtoms(st) == st.ra     \* = AtomsOf(st.t, st.f), stored in the statement (TLC: computed once)
 \* rhs_symbols of the real statement (minus the independent variable t)
 RhsSyms(st) == RhsAtoms(st) \cup (IF st.g THEN {X1} ELSE {}) \cup (IF IsOde(st) THEN {Dose} ELSE {})
 NGuards(P) == Cardinality({i \in 1..Len(P) : P[i].g})
@@ -112,7 +116,7 @@ ExecDep(d, st) == [d EXCEPT ![st.lhs] = UNION {DepOf(d, a) : a \in RhsAtoms(st)}
                                          \cup (IF st.g THEN {X1} ELSE {})
                                          \cup (IF IsOde(st) THEN {Dose} ELSE {})]
 
-Init == /\ pc = 0 /\ prog = <<>> /\ env = InitEnv /\ ode = NoOde /\ dep = InitDep /\ vals = <<>>
+Init == /\ pc = 0 /\ prog = <<>> /\ env = InitEnv /\ ode = NoOde /\ dep = InitDep /\ vals = <<>> /\ reads = {}
 
 Step(st) == /\ pc' = pc + 1
             /\ prog' = Append(prog, st)
@@ -120,6 +124,8 @@ Step(st) == /\ pc' = pc + 1
             /\ ode' = ExecOde(ode, env, st)
             /\ dep' = ExecDep(dep, st)
             /\ vals' = Append(vals, ExecVal(env, st))
+            \* the textual "reads an earlier definition of" relation (every earlier definition, shadowed or not)
+            /\ reads' = reads \cup {<<pc + 1, j>> : j \in {i \in 1..pc : prog[i].lhs \in RhsAtoms(st)}}
 
 \* the same execution as a function of the program (needed for edited programs)
 RECURSIVE RunSeq(_, _)
@@ -131,6 +137,10 @@ RunSeq(P, n) == IF n = 0 THEN [env |-> InitEnv, ode |-> NoOde, vals |-> <<>>]
                          vals |-> Append(r.vals, v)]
 
 \* ---------------------------------------------------------------- program generator
+StCode(st) == Sum10(LAMBDA i : st.t[i] * (i + 1) + st.f[i] * (2 * i + 3)) + (IF st.g THEN 5 ELSE 0) + st.lhs
+RECURSIVE HashP(_, _)
+HashP(P, n) == IF n = 0 THEN 7 ELSE (HashP(P, n - 1) * 31 + StCode(P[n])) % 10007
+Thinned(st) == pc < FullDepth \/ Thin = 1 \/ ((HashP(prog, Len(prog)) * 31 + StCode(st)) % 10007) % Thin = ThinRes
 UseAtoms(i) == Syms \cup {LeafOf(i)} \cup (IF HasOde(prog) THEN {Amt} ELSE {})
 RECURSIVE BagsUpTo(_, _)
 BagsUpTo(U, n) == IF n = 0 THEN {Zero}
@@ -138,22 +148,23 @@ BagsUpTo(U, n) == IF n = 0 THEN {Zero}
 WithConst(b, i) == IF Weight(b) = 0 \/ i % 2 = 0 THEN [b EXCEPT ![One] = 1] ELSE b
 \* symbols are introduced in the order A, B, C, D (programs equal up to renaming are explored once)
 Canon(st) == LET all == SeenIn(prog, Len(prog)) \cup SymsIn(st)
-             IN /\ \E m \in 0..NSyms : all = 1..m
+             IN /\ Thinned(st)
+                /\ \E m \in 0..NSyms : all = 1..m
                 /\ Cardinality(all) + NGuards(prog) + (IF st.g THEN 1 ELSE 0)
                    + (IF HasOde(prog) \/ IsOde(st) THEN 1 ELSE 0) <= MaxFeat
 Room == pc < MaxLen
 
 Assign(lhs, b) == /\ Room
-                  /\ LET st == [k |-> "asg", lhs |-> lhs, g |-> FALSE, t |-> WithConst(b, pc + 1), f |-> WithConst(b, pc + 1)]
+                  /\ LET st == [k |-> "asg", lhs |-> lhs, g |-> FALSE, t |-> WithConst(b, pc + 1), f |-> WithConst(b, pc + 1), ra |-> AtomsOf(b, b)]
                      IN Canon(st) /\ Step(st)
 \* else-branch: "old" keeps the previous value of lhs (NM-TRAN  IF (X1.GT.0) A = ...), "one" is the constant 1
 Guarded(lhs, b, els) == /\ Room /\ NGuards(prog) < MaxGuards
                         /\ LET tt == WithConst(b, pc + 1)
                                ff == IF els = "old" THEN Unit(lhs) ELSE Unit(One)
-                               st == [k |-> "asg", lhs |-> lhs, g |-> TRUE, t |-> tt, f |-> ff]
+                               st == [k |-> "asg", lhs |-> lhs, g |-> TRUE, t |-> tt, f |-> ff, ra |-> AtomsOf(tt, ff)]
                            IN tt # ff /\ Canon(st) /\ Step(st)
 OdeStmt(b) == /\ Room /\ WithODE /\ ~HasOde(prog) /\ Weight(b) > 0
-              /\ LET st == [k |-> "ode", lhs |-> Amt, g |-> FALSE, t |-> b, f |-> b]
+              /\ LET st == [k |-> "ode", lhs |-> Amt, g |-> FALSE, t |-> b, f |-> b, ra |-> AtomsOf(b, b)]
                  IN Canon(st) /\ Step(st)
 
 Bags == BagsUpTo(UseAtoms(pc + 1), MaxUses)
@@ -179,7 +190,7 @@ DepLo(s) == DepLoOf(env, ode, s)
 DepUp(s) == dep[s]
 
 \* reassign(s, e): "set symbol to be expression and remove all previous assignments of symbol"
-NewSt(s, e) == [k |-> "asg", lhs |-> s, g |-> e.t # e.f, t |-> e.t, f |-> e.f]
+NewSt(s, e) == [k |-> "asg", lhs |-> s, g |-> e.t # e.f, t |-> e.t, f |-> e.f, ra |-> AtomsOf(e.t, e.f)]
 RECURSIVE RR(_, _, _, _)
 RR(P, l, ns, n) == IF n = 0 THEN <<>>
                    ELSE IF n = l THEN Append(RR(P, l, ns, n - 1), ns)
@@ -189,7 +200,12 @@ RefReassign(P, s, e) == LET l == RefFind(P, s) IN IF l = 0 THEN P ELSE RR(P, l, 
 
 \* subs({a: b}) for atoms a # b : rename everywhere, left hand sides included
 RenF(x, a, b) == Mk(LAMBDA c : IF c = a THEN 0 ELSE IF c = b THEN x[b] + x[a] ELSE x[c])
-RefSubs(P, a, b) == [i \in 1..Len(P) |-> [P[i] EXCEPT !.lhs = IF @ = a THEN b ELSE @, !.t = RenF(@, a, b), !.f = RenF(@, a, b)]]
+RECURSIVE RefSubsN(_, _, _, _)
+RefSubsN(P, a, b, n) == IF n = 0 THEN <<>>
+                        ELSE Append(RefSubsN(P, a, b, n - 1),
+                                    [P[n] EXCEPT !.lhs = IF @ = a THEN b ELSE @, !.t = RenF(@, a, b), !.f = RenF(@, a, b),
+                                                 !.ra = IF a \in @ THEN (@ \ {a}) \cup {b} ELSE @])
+RefSubs(P, a, b) == RefSubsN(P, a, b, Len(P))
 RenV(v, a, b) == Pair(RenF(v.t, a, b), RenF(v.f, a, b))
 
 \* remove_symbol_definitions(S, statement k), called when statement k no longer uses the symbols S.
@@ -204,11 +220,10 @@ Sound(P, R) == SoundV(P, RunSeq(P, Len(P)).vals, R)
 Complete(P, S, k, R) == \A j \in 1..(k - 1) :
     (j \notin R /\ ~IsOde(P[j]) /\ P[j].lhs \in S) => \E i \in (j + 1)..Len(P) : i \notin R /\ P[j].lhs \in RhsAtoms(P[i])
 \* candidates: the definitions of S before k and everything they (syntactically) are computed from
-RECURSIVE Anc(_, _, _)   \* statements that textually feed the statements of X
-Anc(P, X, n) == IF n = 0 THEN X
-                ELSE Anc(P, X \cup {j \in 1..Len(P) : \E i \in X : j < i /\ P[j].lhs \in RhsAtoms(P[i])}, n - 1)
-Cands(P, S, k) == Anc(P, {i \in 1..(k - 1) : ~IsOde(P[i]) /\ P[i].lhs \in S}, Len(P))
-Admissible(P, v0, S, k) == {R \in SUBSET Cands(P, S, k) : SoundV(P, v0, R) /\ Complete(P, S, k, R)}
+RECURSIVE Anc(_, _, _)   \* statements that textually feed the statements of X (G = the reads relation of P)
+Anc(G, X, n) == IF n = 0 THEN X ELSE Anc(G, X \cup {e[2] : e \in {x \in G : x[1] \in X}}, n - 1)
+Cands(P, G, S, k) == Anc(G, {i \in 1..(k - 1) : ~IsOde(P[i]) /\ P[i].lhs \in S}, Len(P))
+Admissible(P, G, v0, S, k) == {R \in SUBSET Cands(P, G, S, k) : SoundV(P, v0, R) /\ Complete(P, S, k, R)}
 RmPre(P, S, k) == /\ RhsAtoms(P[k]) \cap S = {}
                   /\ \A j \in 1..(k - 1) : P[j] # P[k]     \* the API identifies the statement by equality (first match)
 
@@ -240,9 +255,8 @@ FoldDeps(P, order, symbs) ==
     IF order = <<>> THEN symbs
     ELSE FoldDeps(P, Tail(order), (symbs \ {P[Head(order)].lhs}) \cup RhsSyms(P[Head(order)]))
 \* outcome "set" | "KeyError" | "NetworkXError"
-DepImpl(P, s) ==
+DepImpl(P, G, s) ==
     LET i == LastDef(P, s)
-        G == DepGraph(P)
     IN IF i = 0 THEN [o |-> "KeyError", s |-> {}]
        ELSE IF i = 1 \/ G = {} THEN [o |-> "set", s |-> RhsSyms(P[i])]
        ELSE IF i \notin GNodes(G) THEN [o |-> "NetworkXError", s |-> {}]   \* bfs from a node the graph does not have
@@ -251,9 +265,8 @@ DepImpl(P, s) ==
 \* remove_symbol_definitions
 RECURSIVE Reach(_, _, _)
 Reach(G, S, n) == IF n = 0 THEN S ELSE Reach(G, S \cup UNION {Succ(G, i) : i \in S}, n - 1)
-RemoveImpl(P, S, k) ==
-    LET G == DepGraph(P)
-        n == Len(P)
+RemoveImpl(P, G, S, k) ==
+    LET n == Len(P)
         c0 == {i \in 1..(k - 1) : ~IsOde(P[i]) /\ P[i].lhs \in S}
         c1 == c0 \cup Reach(G, c0 \cap GNodes(G), n)
         keep == Reach(G, {k}, n) \ {k}
@@ -275,27 +288,28 @@ ReassignImpl(P, s, e) == RaLoop(P, Len(P), TRUE, NewSt(s, e))
 QSyms == Syms \cup (IF HasOde(prog) THEN {Amt} ELSE {})
 RaForm == [Zero EXCEPT ![P2] = 1, ![One] = 1]
 RaExpr == Pair(RaForm, RaForm)
-RmSets == {S \in SUBSET Syms : S # {} /\ Cardinality(S) <= 2}
+RmSets == {S \in SUBSET Syms : S # {} /\ Cardinality(S) <= MaxRmSet}
 
 \* the machine is sequential execution
-T0_Machine == LET r == RunSeq(prog, Len(prog)) IN r.env = env /\ r.ode = ode /\ r.vals = vals /\ pc = Len(prog)
+T0_Machine == LET r == RunSeq(prog, Len(prog))
+              IN r.env = env /\ r.ode = ode /\ r.vals = vals /\ pc = Len(prog) /\ reads = DepGraph(prog)
 \* T1: reverse substitution evaluates to what execution computes
 T1_FullExpr == \A s \in Syms : LET r == FullExpr(prog, s) IN ~r.err => r.v = env[s]
 \* T2: reported dependencies cover every leaf the value depends on; exact on the leaves without reassignment
-T2_DepSound == \A s \in QSyms : LET r == DepImpl(prog, s) IN
+T2_DepSound == \A s \in QSyms : LET r == DepImpl(prog, reads, s) IN
                   r.o = "set" => /\ (DepLo(s) \cap TrueLeaves) \subseteq r.s
                                  /\ NoReassign(prog) => (r.s \cap TrueLeaves) = (DepUp(s) \cap TrueLeaves)
 T3_DepBounds == \A s \in QSyms : DepLo(s) \subseteq DepUp(s)
 \* NOT a theorem (recorded per case): the initial value of a symbol that is assigned later can be lost
-DepInitLost(s) == LET r == DepImpl(prog, s) IN r.o = "set" /\ ~(DepLo(s) \subseteq r.s)
+DepInitLost(s) == LET r == DepImpl(prog, reads, s) IN r.o = "set" /\ ~(DepLo(s) \subseteq r.s)
 \* T4: the removal algorithm's answer is admissible -- EXCEPT (found by TLC, reproduced on the real code, finding
 \* C10-F2) when a statement strictly between a removed definition and statement k still reads the removed symbol:
 \* the algorithm only protects the dependencies of k and the readers AFTER k.
 Between(P, k, R) == \E j \in R : \E i \in (j + 1)..(k - 1) : i \notin R /\ P[j].lhs \in RhsAtoms(P[i])
-RmOk(P, v0, S, k, R) == R \subseteq Cands(P, S, k) /\ SoundV(P, v0, R) /\ Complete(P, S, k, R)
+RmOk(P, G, v0, S, k, R) == R \subseteq Cands(P, G, S, k) /\ SoundV(P, v0, R) /\ Complete(P, S, k, R)
 T4_Remove == \A k \in 1..Len(prog), S \in RmSets :
-                RmPre(prog, S, k) => LET R == RemoveImpl(prog, S, k)
-                                     IN Between(prog, k, R) \/ RmOk(prog, vals, S, k, R)
+                RmPre(prog, S, k) => LET R == RemoveImpl(prog, reads, S, k)
+                                     IN Between(prog, k, R) \/ RmOk(prog, reads, vals, S, k, R)
 \* T5: the backwards loop is "delete the earlier definitions, replace the last"
 T5_Reassign == \A s \in Syms : ReassignImpl(prog, s, RaExpr) = RefReassign(prog, s, RaExpr)
 \* T6: renaming a leaf commutes with execution
@@ -313,19 +327,19 @@ Names(S) == {Name[a] : a \in S}
 StJ(st) == [k |-> st.k, lhs |-> Name[st.lhs], g |-> st.g, t |-> Sparse(st.t), f |-> Sparse(st.f)]
 ProgJ(P) == [i \in 1..Len(P) |-> StJ(P[i])]
 ValJ(v) == [t |-> Sparse(v.t), f |-> Sparse(v.f)]
-SymJ(s) == LET d == DepImpl(prog, s)
+SymJ(s) == LET d == DepImpl(prog, reads, s)
                fe == IF s \in Syms THEN FullExpr(prog, s) ELSE [err |-> TRUE, v |-> Pair(Zero, Zero)]
                i == LastDef(prog, s)
            IN [s |-> Name[s], def |-> i, find |-> RefFind(prog, s), val |-> ValJ(env[s]),
                fe |-> [err |-> fe.err, v |-> ValJ(fe.v)],
                dlo |-> Names(DepLo(s)), dup |-> Names(DepUp(s)),
                dtr |-> [o |-> d.o, s |-> Names(d.s)],
-               noedge |-> i > 0 /\ i \notin GNodes(DepGraph(prog)),
+               noedge |-> i > 0 /\ i \notin GNodes(reads),
                initlost |-> DepInitLost(s)]
-RmJ == {[k |-> x[1], S |-> Names(x[2]), tr |-> RemoveImpl(prog, x[2], x[1]),
-         trok |-> RmOk(prog, vals, x[2], x[1], RemoveImpl(prog, x[2], x[1])),
-         enum |-> Cardinality(Cands(prog, x[2], x[1])) <= MaxAdm,
-         adm |-> IF Cardinality(Cands(prog, x[2], x[1])) <= MaxAdm THEN Admissible(prog, vals, x[2], x[1]) ELSE {}] :
+RmJ == {[k |-> x[1], S |-> Names(x[2]), tr |-> RemoveImpl(prog, reads, x[2], x[1]),
+         trok |-> RmOk(prog, reads, vals, x[2], x[1], RemoveImpl(prog, reads, x[2], x[1])),
+         enum |-> Cardinality(Cands(prog, reads, x[2], x[1])) <= MaxAdm,
+         adm |-> IF Cardinality(Cands(prog, reads, x[2], x[1])) <= MaxAdm THEN Admissible(prog, reads, vals, x[2], x[1]) ELSE {}] :
         x \in {y \in (1..Len(prog)) \X RmSets : RmPre(prog, y[2], y[1])}}
 Case == [n |-> Len(prog), ode |-> HasOde(prog), nore |-> NoReassign(prog),
          prog |-> ProgJ(prog),
@@ -335,9 +349,6 @@ Case == [n |-> Len(prog), ode |-> HasOde(prog), nore |-> NoReassign(prog),
          ra |-> {[s |-> Name[s], p |-> ProgJ(RefReassign(prog, s, RaExpr))] : s \in Syms},
          sb |-> {[a |-> Name[x[1]], b |-> Name[x[2]], p |-> ProgJ(RefSubs(prog, x[1], x[2]))] : x \in {<<P1, Q1>>, <<P1, P2>>, <<1, Q1>>}},
          used |-> Names(UsedLeaves(prog))]
-StCode(st) == Sum10(LAMBDA i : st.t[i] * (i + 1) + st.f[i] * (2 * i + 3)) + (IF st.g THEN 5 ELSE 0) + st.lhs
-RECURSIVE HashP(_, _)
-HashP(P, n) == IF n = 0 THEN 7 ELSE (HashP(P, n - 1) * 31 + StCode(P[n])) % 10007
-Sampled == HashP(prog, Len(prog)) % SampleMod = SampleRes
+Sampled == ((HashP(prog, Len(prog)) * 13 + Len(prog)) % 9973) % SampleMod = SampleRes
 EmitCase == (pc >= MinEmit /\ Sampled) => PrintT(<<"CASE", ToJson(Case)>>)
 =============================================================================
